@@ -27,11 +27,23 @@ type boolInterp struct {
 }
 
 type boolFrame struct {
-	fn    *ssa.Function
-	roles map[ssa.Value]string // parameter -> role
-	env   map[ssa.Value]bool
-	ienv  map[ssa.Value]int64 // integer phis all of whose edges are constants (an axis selector)
-	prev  *ssa.BasicBlock
+	fn     *ssa.Function
+	roles  map[ssa.Value]string // parameter -> role
+	env    map[ssa.Value]bool
+	ienv   map[ssa.Value]int64     // integer phis all of whose edges are constants (an axis selector)
+	subst  map[ssa.Value]ssa.Value // helper frame: parameter -> the caller's value
+	ituple map[*ssa.Call][]int64   // integer results of module helpers that returned constants
+	prev   *ssa.BasicBlock
+}
+
+// callerValue maps a value of a helper frame back to the value it stands for in the calling frame.
+func (fr *boolFrame) callerValue(v ssa.Value) ssa.Value {
+	if fr.subst != nil {
+		if m, ok := fr.subst[v]; ok {
+			return m
+		}
+	}
+	return v
 }
 
 // resolve strips representation changes and loads of spilled parameters: the value a load of a local that is
@@ -201,6 +213,66 @@ func (bi *boolInterp) run(fr *boolFrame, b *ssa.BasicBlock, stop map[*ssa.BasicB
 					return boolOutcome{kind: "return", val: v, ret: x}, nil
 				}
 				return boolOutcome{kind: "return", ret: x}, nil
+			case *ssa.Call:
+				// a module helper that selects integers (an axis pair, an index): followed when its results are
+				// constants on the path taken
+				callee := x.Call.StaticCallee()
+				if callee == nil || len(callee.Blocks) == 0 || !core.IsModPath(core.FuncPkgPath(callee)) || depth >= 4 {
+					break
+				}
+				res := callee.Signature.Results()
+				allInt := res.Len() >= 1
+				for i := 0; i < res.Len(); i++ {
+					if bt, ok := res.At(i).Type().Underlying().(*types.Basic); !ok || bt.Info()&types.IsInteger == 0 {
+						allInt = false
+					}
+				}
+				if !allInt {
+					break
+				}
+				sub := &boolFrame{fn: callee, roles: map[ssa.Value]string{}, env: map[ssa.Value]bool{}, subst: map[ssa.Value]ssa.Value{}}
+				for i, a := range x.Call.Args {
+					if i < len(callee.Params) {
+						sub.subst[callee.Params[i]] = fr.callerValue(resolveValue(a))
+						if r := bi.roleOf(fr, a); r != "" {
+							sub.roles[callee.Params[i]] = r
+						}
+					}
+				}
+				out, err := bi.run(sub, callee.Blocks[0], nil, depth+1)
+				if err != nil || out.kind != "return" || out.ret == nil {
+					break // not understood: values stay unknown and fail later if they matter
+				}
+				vals := make([]int64, len(out.ret.Results))
+				okAll := true
+				for i, r := range out.ret.Results {
+					if k, ok := r.(*ssa.Const); ok && k.Value != nil && k.Value.Kind() == constant.Int {
+						vals[i] = k.Int64()
+					} else if v, ok := sub.ienv[r]; ok {
+						vals[i] = v
+					} else {
+						okAll = false
+					}
+				}
+				if okAll {
+					if fr.ienv == nil {
+						fr.ienv = map[ssa.Value]int64{}
+					}
+					if len(vals) == 1 {
+						fr.ienv[x] = vals[0]
+					} else {
+						if fr.ituple == nil {
+							fr.ituple = map[*ssa.Call][]int64{}
+						}
+						fr.ituple[x] = vals
+					}
+				}
+			case *ssa.Extract:
+				if call, ok := x.Tuple.(*ssa.Call); ok && fr.ituple != nil {
+					if vals, ok := fr.ituple[call]; ok && x.Index < len(vals) {
+						fr.ienv[x] = vals[x.Index]
+					}
+				}
 			case *ssa.Panic:
 				return boolOutcome{kind: "noreturn"}, nil
 			default:
